@@ -231,9 +231,9 @@ Inv2(H1, H2) == H1[1] * H2[3] + H2[1] * H1[3] - 2 * GRe(GMul(H1[2], GConj(H2[2])
 Tangent(H1, H2)  == Inv2(H1, H2) * Inv2(H1, H2) = 4 * HDet(H1) * HDet(H2)
 Crossing(H1, H2) == Inv2(H1, H2) * Inv2(H1, H2) < 4 * HDet(H1) * HDet(H2)
 \* when the circles are disjoint, the circle of D2 lies on one side of the circle of D1
-CircleInside(D1, D2) == In(D1.H, D2.b[1])
-ContainsD(D1, D2)   == ~Crossing(D1.H, D2.H) /\ CircleInside(D1, D2) /\ ~CircleInside(D2, D1)
-IntersectsD(D1, D2) == Crossing(D1.H, D2.H) \/ CircleInside(D1, D2) \/ CircleInside(D2, D1)
+CircleInside(E1, E2) == In(E1.H, E2.b[1])
+ContainsD(E1, E2)   == ~Crossing(E1.H, E2.H) /\ CircleInside(E1, E2) /\ ~CircleInside(E2, E1)
+IntersectsD(E1, E2) == Crossing(E1.H, E2.H) \/ CircleInside(E1, E2) \/ CircleInside(E2, E1)
 CompD(D) == [D EXCEPT !.H = HNeg(D.H)]
 
 D1 == PairU[st[1]]
